@@ -14,6 +14,10 @@
 (* statement) and blank lines are not counted.  Inside a character literal *)
 (* ('...' or "...", quote doubling allowed, may continue over lines with   *)
 (* & ... &) the characters ! & / are ordinary.                             *)
+(* Outside the well-formed texts (ok = FALSE): a statement line that holds  *)
+(* nothing but continuation markers and comments; a # that is not the first *)
+(* non-blank character of its line; quotes inside a directive line (the C   *)
+(* cleaner's business, see CScan / MC_CLex).                                *)
 (*                                                                         *)
 (* The text is a sequence of lines, each a sequence of one-character       *)
 (* strings (no newline characters).  ScanF returns                          *)
@@ -56,6 +60,9 @@ LineR(ln, i, q, text, amp) ==
     ELSE IF IsWs(c) THEN LineR(ln, i + 1, "", text, amp)
     ELSE LineR(ln, i + 1, "", TRUE, FALSE)
 
+\* characters of line ln from position i on that belong to set S
+HasAny(ln, i, S) == \E k \in i..Len(ln) : ln[k] \in S
+
 \* state over lines: q (open literal), cont (statement continues), dcont (directive continues),
 \*                   counted, dirs, curdir, ok
 RECURSIVE ScanLines(_, _, _)
@@ -70,6 +77,7 @@ ScanLines(lines, k, s) ==
        \* continuation line of a directive: counted iff it holds anything
        LET cnt == f # 0 /\ ~(f = Len(ln) /\ endsBs) IN
        ScanLines(lines, k + 1, TLCEval([s EXCEPT !.dcont = endsBs,
+                    !.ok = s.ok /\ ~HasAny(ln, 1, {"'", "\"", "#"}),
                     !.counted = IF cnt THEN s.counted \cup {k} ELSE s.counted,
                     !.curdir = IF cnt THEN s.curdir \cup {k} ELSE s.curdir,
                     !.dirs = IF endsBs THEN s.dirs ELSE Append(s.dirs, IF cnt THEN s.curdir \cup {k} ELSE s.curdir)]))
@@ -77,6 +85,7 @@ ScanLines(lines, k, s) ==
   ELSE IF ln[f] = "#" THEN        \* (the preprocessor runs first: also between the pieces of a continued literal)
        \* a preprocessor directive may sit between the lines of a continued statement
        ScanLines(lines, k + 1, TLCEval([s EXCEPT !.dcont = endsBs, !.counted = s.counted \cup {k}, !.curdir = {k},
+                    !.ok = s.ok /\ ~HasAny(ln, f + 1, {"'", "\"", "#"}),
                     !.dirs = IF endsBs THEN s.dirs ELSE Append(s.dirs, {k})]))
   ELSE IF (s.q = "" \/ s.cont) /\ IsSentinel(ln, f) THEN
        \* a directive sentinel inside a continued statement is a directive to one compiler and a
@@ -91,7 +100,7 @@ ScanLines(lines, k, s) ==
       bad == (s.q # "" /\ ~(s.cont /\ ln[f] = "&"))                \* a continued literal needs the leading &
   IN ScanLines(lines, k + 1, TLCEval([s EXCEPT !.q = r.q, !.cont = r.amp,
                     !.counted = IF r.text THEN s.counted \cup {k} ELSE s.counted,
-                    !.ok = s.ok /\ ~bad /\ (r.q = "" \/ r.amp) /\ (r.text \/ r.amp)]))
+                    !.ok = s.ok /\ ~bad /\ (r.q = "" \/ r.amp) /\ r.text /\ ~HasAny(ln, f, {"#"})]))
 
 ScanF(lines) ==
   LET s == ScanLines(lines, 1, [q |-> "", cont |-> FALSE, dcont |-> FALSE, counted |-> {}, dirs |-> <<>>,
